@@ -3,18 +3,22 @@
 # Writes /verif/seeded/RESULTS.json  {seed id: {"detected": bool, "keys": [...], "exit": n}}
 tier="${1:-quick}"
 cd "$(dirname "$0")/.." || exit 2
-if [ -n "$(git -C /repo status --porcelain --untracked-files=no)" ]; then echo "/repo is dirty"; exit 2; fi
+# works on a scratch worktree of /repo's HEAD (outside /repo and /verif), removed at the end
+WT=/tmp/wt/sweep
+git -C /repo worktree remove --force "$WT" 2>/dev/null
+git -C /repo worktree add --detach "$WT" HEAD >/dev/null 2>&1 || { echo "cannot create worktree"; exit 2; }
+export FEDJAX_SRC="$WT"
 tmp=$(mktemp)
 echo "{" > "$tmp"
 first=1
 for d in seeded/C*-m*; do
   id=$(basename "$d"); pid=${id%%-*}
-  if ! git -C /repo apply --check "$PWD/$d/patch.diff" 2>/dev/null; then
+  if ! git -C "$WT" apply --check "$PWD/$d/patch.diff" 2>/dev/null; then
     res="{\"detected\": null, \"note\": \"patch does not apply to /repo HEAD\"}"
   else
-    git -C /repo apply "$PWD/$d/patch.diff"
+    git -C "$WT" apply "$PWD/$d/patch.diff"
     out=$(./check "$pid" --tier "$tier" 2>&1); rc=$?
-    git -C /repo checkout -- .
+    git -C "$WT" checkout -- .
     keys=$(echo "$out" | grep -A1 '^VIOLATION' | grep -v '^VIOLATION\|^--' | sed 's/^  //' | cut -d' ' -f1 | sort -u | head -6 | /venv/bin/python -c "import sys,json; print(json.dumps([l.strip() for l in sys.stdin if l.strip()]))")
     det=false; [ "$rc" = "1" ] && det=true
     res="{\"detected\": $det, \"exit\": $rc, \"keys\": $keys}"
@@ -25,3 +29,4 @@ for d in seeded/C*-m*; do
 done
 echo "" >> "$tmp"; echo "}" >> "$tmp"
 mv "$tmp" seeded/RESULTS.json
+git -C /repo worktree remove --force "$WT"
